@@ -143,12 +143,21 @@ def r4_postfix(text):
                       ('reference', '(&%s)'), ('dereference', '(*%s)'), ('boxed', 'Box::new(%s)'),
                       ('wrap_vec', 'vec![%s]')):
         while True:
-            m = re.search(r'\.\s*' + name + r'\(\)', text)
+            m = re.search(r'\.\s*' + name + r'(?:::<([^<>()]*)>)?\(\)', text)
             if not m:
                 break
             recv_start = _receiver_start(text, m.start())
             recv = text[recv_start:m.start()]
-            text = text[:recv_start] + (fmt % recv.strip()) + text[m.end():]
+            f = fmt
+            if m.group(1) is not None:
+                # `x.wrap_ok::<E>()` is `Ok::<_, E>(x)`; `x.wrap_err::<T>()` is `Err::<T, _>(x)`
+                if name == 'wrap_ok':
+                    f = 'Ok::<_, ' + m.group(1) + '>(%s)'
+                elif name == 'wrap_err':
+                    f = 'Err::<' + m.group(1) + ', _>(%s)'
+                else:
+                    raise ValueError('turbofish on .%s() not supported' % name)
+            text = text[:recv_start] + (f % recv.strip()) + text[m.end():]
             n += 1
     return text, n
 
@@ -174,8 +183,16 @@ def _receiver_start(text, end):
                     if depth == 0:
                         break
                 i -= 1
+            open_i = i
             i -= 1
-            # a call/index: continue with the callee
+            # a call/index continues with the callee; a group that is not preceded by a callee
+            # (`()`, `(a, b)`, `[..]` after `}` `;` `{` `=` `,` or at the start) IS the receiver
+            j = i
+            while j >= 0 and toks[j][0] in ('ws', 'lcomment', 'bcomment'):
+                j -= 1
+            if j < 0 or not (toks[j][0] in ('ident', 'num', 'str', 'char') or (toks[j][0] == 'punct' and toks[j][1] in ')]>?')):
+                if open_i >= 0 and toks[open_i][1] in '([':
+                    return toks[open_i][2]
             continue
         if t[0] in ('ident', 'num', 'str', 'char'):
             i -= 1
